@@ -452,6 +452,8 @@ func checkC17(c *Ctx) Meta {
 
 	// ---- ROUTE
 	checkRouting(c)
+	c.Rule("C17-LATEST", "the current broadcast task of a superior (latestTask, replayed to late subscribers) is read and written under one common lock in every function that touches it", 4)
+	checkLatestTaskGuard(c, fns, li)
 	c.Rule("C17-CTX", "a function that is handed a context passes it on to every context-taking call (not a longer-lived field context), so that stopping the caller releases the call", 30)
 	checkCtxPassThrough(c, fns)
 	c.Rule("C17-OWN", "every frame handed to the receive queue owns its buffer (allocated afresh per frame): reports are delivered unmodified", 1)
@@ -1001,6 +1003,7 @@ func checkFrameOwnership(c *Ctx) {
 		}
 		n++
 		var makes []*ssa.MakeSlice
+		var allocCalls []*ssa.Call
 		other := false
 		seen := map[ssa.Value]bool{}
 		var rec func(v ssa.Value)
@@ -1026,12 +1029,47 @@ func checkFrameOwnership(c *Ctx) {
 						other = true
 					}
 				})
+			case *ssa.Const:
+				if !x.IsNil() {
+					other = true
+				}
+			case *ssa.Extract:
+				// the frame is read by a helper the reference tree does not have: every value it can hand
+				// back in this position is nil or a buffer it makes itself, and the helper is called afresh
+				// for every frame (its call is the allocation point in the caller)
+				cl, isCall := x.Tuple.(*ssa.Call)
+				if !isCall || cl.Call.StaticCallee() == nil || !gNewFuncs[cl.Call.StaticCallee()] || cl.Parent() != f {
+					other = true
+					return
+				}
+				h := cl.Call.StaticCallee()
+				for _, ret := range returnsOf(h) {
+					if x.Index < len(ret.Results) {
+						rv := ret.Results[x.Index]
+						// named results are spilled to cells: resolve within the helper
+						valueOrigins(h, rv, func(r ssa.Value) {
+							switch y := r.(type) {
+							case *ssa.MakeSlice:
+								if y.Parent() != h {
+									other = true
+								}
+							case *ssa.Const:
+								if !y.IsNil() {
+									other = true
+								}
+							default:
+								other = true
+							}
+						})
+					}
+				}
+				allocCalls = append(allocCalls, cl)
 			default:
 				other = true
 			}
 		}
 		rec(val)
-		if other || len(makes) == 0 {
+		if other || len(makes)+len(allocCalls) == 0 {
 			bad = "the frame handed to the receive queue is not a freshly made buffer"
 			return
 		}
@@ -1042,9 +1080,14 @@ func checkFrameOwnership(c *Ctx) {
 					return true
 				}
 			}
+			for _, m := range allocCalls {
+				if i2 == ssa.Instruction(m) {
+					return true
+				}
+			}
 			return false
 		})(in)
-		if again || len(makes) > 1 {
+		if again || len(makes)+len(allocCalls) > 1 {
 			bad = "the buffer of a frame already handed to the receive queue can be reused for the next frame: a queued report is overwritten before it is decoded (reports delivered modified or lost)"
 		}
 	}
@@ -1066,5 +1109,89 @@ func checkFrameOwnership(c *Ctx) {
 		c.Bad(rule, key, c.Pos(f.Pos()), bad)
 	} else {
 		c.OK(rule, key, c.Pos(f.Pos()), "the slice sent on recvCh is made afresh in every round")
+	}
+}
+
+// checkLatestTaskGuard (C17-LATEST): the "current broadcast task" of a superior is written by the task
+// source (AddTask / the relay's request processor), cleared by RemoveTask and read by every subscribing
+// collector's goroutine. It is an interface value (two words): all accesses must hold one common lock,
+// otherwise a subscriber can read a torn value (panic) and — because registration and the read are not
+// one critical section with the write and the broadcast — receive the task twice (once from the replay
+// in Subscribe, once from the broadcast) or see a task that was just removed. Decided per superior type:
+// the lock class held at most accesses is the guard; every access outside it is reported.
+func checkLatestTaskGuard(c *Ctx, fns []*ssa.Function, li *lockInfo) {
+	rule := "C17-LATEST"
+	type acc struct {
+		a  fieldAccess
+		fn *ssa.Function
+	}
+	byType := map[string][]acc{}
+	for _, fn := range fns {
+		for _, a := range fieldAccessesShallow(fn) {
+			if a.Field != "latestTask" || !strings.HasPrefix(a.Type, pkgFractal+".") {
+				continue
+			}
+			if a.Kind != "load" && a.Kind != "store" {
+				continue
+			}
+			if isFreshObject(strip(a.Base)) {
+				continue
+			}
+			byType[a.Type] = append(byType[a.Type], acc{a, fn})
+		}
+	}
+	if len(byType) == 0 {
+		c.Bad(rule, "anchor", "", "reason=anchor-missing: no access to a latestTask field in package fractal")
+		return
+	}
+	var types []string
+	for t := range byType {
+		types = append(types, t)
+	}
+	sort.Strings(types)
+	for _, t := range types {
+		accs := byType[t]
+		cover := map[string]int{}
+		for _, x := range accs {
+			seen := map[string]bool{}
+			for k := range li.at[x.a.In] {
+				if !seen[k.Class] {
+					seen[k.Class] = true
+					cover[k.Class]++
+				}
+			}
+		}
+		guard, best := "", 0
+		var classes []string
+		for cl := range cover {
+			classes = append(classes, cl)
+		}
+		sort.Strings(classes)
+		for _, cl := range classes {
+			if cover[cl] > best {
+				guard, best = cl, cover[cl]
+			}
+		}
+		ord := map[string]int{}
+		for _, x := range accs {
+			base := FuncName(x.fn) + ":" + shortType(t) + ".latestTask:" + x.a.Kind
+			ord[base]++
+			key := fmt.Sprintf("%s#%d", base, ord[base])
+			held := false
+			for k := range li.at[x.a.In] {
+				if guard != "" && k.Class == guard && (x.a.Kind == "load" || k.Mode == 'W') {
+					held = true
+				}
+			}
+			if held {
+				c.OK(rule, key, c.Pos(x.a.In.Pos()), "accessed with "+shortType(guard)+" held")
+				continue
+			}
+			g := "no lock guards it anywhere"
+			if guard != "" {
+				g = "its other accesses hold " + shortType(guard)
+			}
+			c.Bad(rule, key, c.Pos(x.a.In.Pos()), "the current broadcast task ("+shortType(t)+".latestTask, an interface value) is "+map[string]string{"load": "read", "store": "written"}[x.a.Kind]+" here with lockset "+li.at[x.a.In].String()+" while other goroutines write/read it ("+g+"): a collector that subscribes while a task is added or removed reads it unsynchronised — a torn read panics, and registration+replay are not atomic with write+broadcast, so the collector can receive the same task twice")
+		}
 	}
 }
